@@ -29,7 +29,7 @@ func (r *Run) optsVariant(i int) srvOpts {
 }
 
 func runC08(r *Run) {
-	r.Result.Rule = "scenario = one server configuration (peer store / hook / callback / passive crossed) + a sequence of inbound datagrams: every method incl. unknown, t of length 0..40 with arbitrary bytes, args present/absent, genuine/mutated/bogus tokens, read-only senders, non-query messages, IPv4/IPv6/v4-mapped sources, port 0; every datagram written is attributed to the query that caused it; non-trivial = distinct (y, q, t, args?, ro, family)"
+	r.Result.Rule = "scenario = one server configuration (peer store / hook / callback / passive crossed) + a sequence of inbound datagrams: every method incl. unknown, t of length 0..40 with arbitrary bytes, args present/absent, genuine/mutated/bogus tokens, read-only senders, non-query messages, IPv4/IPv6/v4-mapped sources, port 0; every datagram written is attributed to the query that caused it; + tokened puts against a bep44.Store whose Get/Put fails with an ordinary Go error at a PRNG-chosen call; non-trivial = distinct (y, q, t, args?, ro, family)"
 	n := r.n(60, 1500)
 	for i := 0; i < n; i++ {
 		sc := r.newSrvScen(r.optsVariant(i))
@@ -44,6 +44,7 @@ func runC08(r *Run) {
 	for i := 0; i < r.n(20, 400); i++ {
 		r.c08Burst(i)
 	}
+	r.faultyStoreStream("C08", r.n(40, 600))
 }
 
 // Concurrent queries: replies are produced by goroutines that may overlap; every requester must
